@@ -4,7 +4,7 @@ PROP = {
     "bin": "c04",
     "coq_targets": ["theories/IL/C04Check"],
     "n": {"quick": 6000, "thorough": 120000},
-    "theorems": [],
+    "theorems": ["c_bin_spec", "c_bin_spec_noshift", "c_bin_sort_error", "c_ext_spec", "new_big_spec", "c_bin_inr", "c_ext_inr", "no_panic"],
     "rule": "cases drawn from one xoshiro256** stream per (seed,index): 45% Constant operators at boundary-biased widths/values, "
             "10% extensions/truncations, 35% expression trees built through the public constructors then eval'd, 10% replace_scalar; "
             "non-trivial = boundary operand (sign bit set, zero divisor, shift) or tree of >= 3 nodes; distinct by canonical case text",
